@@ -494,7 +494,9 @@ macros[Profiles.CSS_LEVEL_2] = {
     'generic-voice': r'male|female|child',
     'content': r'{string}|{uri}|{counter}|attr\({w}{ident}{w}\)|open-quote|close-quote|no-open-quote|no-close-quote',
     'background-attrs': r'{background-color}|{background-image}|{background-repeat}|{background-attachment}|{background-position}',  # noqa
-    'list-attrs': r'{list-style-type}|{list-style-position}|{list-style-image}',
+    # 'none' and 'inherit' are in {list-style-type} already: listing them three
+    # times made the repetition in 'list-style' match them in three ways each
+    'list-attrs': r'{list-style-type}|inside|outside|{uri}',
     'font-attrs': r'{font-style}|{font-variant}|{font-weight}',
     'text-attrs': r'underline|overline|line-through|blink',
     'overflow': r'visible|hidden|scroll|auto|inherit',
